@@ -1,7 +1,7 @@
 //vp:property C04
 //vp:pkg ./tsdb/wlog
 //vp:roots ./util/compression io
-//vp:bounds wlog.Reader (nextNew, validateRecord, recTypeFromHeader) over an arbitrary byte stream of n bytes, n in {0,1,6,7,8,9,14,16} (thorough every n <= 18): room for up to two fragments with payloads of a few bytes, cut at many lengths; CRC32 is an uninterpreted function of the exact payload bytes; fragment headers carry no compression flag and a length field <= 20 or invalid (> pageSize-7)
+//vp:bounds wlog.Reader (nextNew, validateRecord, recTypeFromHeader) over an arbitrary byte stream of n bytes, n in {0,1,6,7,8,9,14,16,21} (thorough every n <= 22): room for up to three fragments (two with payloads of a few bytes), cut at many lengths; CRC32 is an uninterpreted function of the exact payload bytes; fragment headers carry no compression flag and a length field <= 20 or invalid (> pageSize-7)
 //vp:assume checksums are an uninterpreted function; records flagged as compressed are outside (snappy/zstd decoders are not encoded)
 package wlog
 
@@ -17,9 +17,9 @@ import (
 func vpH_C04_walReader_bytes() {
 	var n int
 	if vpThorough() {
-		n = vpShape("n", 0, 18)
+		n = vpShape("n", 0, 22)
 	} else {
-		n = []int{0, 1, 6, 7, 8, 9, 14, 16}[vpShape("nsel", 0, 7)]
+		n = []int{0, 1, 6, 7, 8, 9, 14, 16, 21}[vpShape("nsel", 0, 8)]
 	}
 	b := make([]byte, n)
 	for i := range b {
@@ -30,7 +30,7 @@ func vpH_C04_walReader_bytes() {
 	// in between make the reader hit the end of this short stream and are outside the bounds
 	{
 		pos := 0
-		for f := 0; f < 3 && pos+recordHeaderSize <= n; f++ {
+		for f := 0; f < 4 && pos+recordHeaderSize <= n; f++ {
 			hdr := b[pos]
 			vpAssume(hdr&(snappyMask|zstdMask) == 0)
 			if recTypeFromHeader(hdr) == recPageTerm {
